@@ -10,7 +10,7 @@ EXPAND = {"e": ["-e"], "d": ["-d"], "v": ["-v"], "V": ["-V"], "h": ["-h"], "le":
           "iF": ["-i", "F.bin"], "iE": ["--input", "E.wenc"], "iMissing": ["-i", "missing.bin"], "iLong": ["-i", LONGDIR + "/f.bin"], "iNoArg": ["-i"], "iProc": ["-i", "/proc/version"],
           "oO": ["-o", "O.out"], "oBad": ["-o", "nodir/x.out"],
           "kK": ["-k", K], "kW": ["--key", W], "kShort": ["-k", K[:-1]], "kBadChar": ["-k", K[:20] + "!" + K[21:]],
-          "kNoPad": ["-k", K[:22] + "AA"], "kOnePad": ["-k", K[:22] + "A="], "kLong": ["-k", K[:22] + "AAAA=="],
+          "kNoPad": ["-k", K[:22] + "AA"], "kOnePad": ["-k", K[:22] + "A="], "kLong": ["-k", K[:22] + "AAAA=="], "kHigh": ["-k", K[:5] + "\udcc1" + K[6:]],
           "c2": ["--cmode", "2"], "c5": ["--cmode", "5"], "c100": ["--cmode", "100"], "c256": ["--cmode", "256"], "c260": ["--cmode", "260"], "cabc": ["--cmode", "abc"],
           "h1": ["--hmode", "1"], "h3": ["--hmode", "3"], "h256": ["--hmode", "256"], "x": ["-x"], "stray": ["stray"]}
 DIAG = re.compile(rb"Error|Wrong|Invalid|invalid|too short|not match|requires an argument|unrecognized|Unknown")
@@ -123,7 +123,7 @@ def run(tier, replay):
         if tier == "quick":
             vecs = rng.sample(okv, min(len(okv), 260)) + rng.sample(failv, 340)
             # the pinned defects' vectors are always included
-            must = [["e", "iProc"], ["e", "iProc", "oO"], ["en", "iProc"], ["d", "iE", "oO"], ["v", "iE"], ["d", "iE", "kK"], ["e", "iLong"], ["e", "iF", "oO", "c256"], ["e", "iF", "oO", "kNoPad"], ["e", "iF", "oO", "kOnePad"], ["e", "iF"], ["d"], ["v"], ["e"]]
+            must = [["e", "iProc"], ["e", "iProc", "oO"], ["en", "iProc"], ["d", "iE", "oO"], ["v", "iE"], ["d", "iE", "kK"], ["e", "iLong"], ["e", "iF", "oO", "c256"], ["e", "iF", "oO", "kNoPad"], ["e", "iF", "oO", "kOnePad"], ["e", "iF", "oO", "kHigh"], ["d", "iE", "oO", "kHigh"], ["e", "iF"], ["d"], ["v"], ["e"]]
             have = set(tuple(v["tokens"]) for v in vecs)
             vecs += [v for v in allv if v["tokens"] in must and tuple(v["tokens"]) not in have]
         else:
